@@ -4,6 +4,7 @@ package main
 
 import (
 	"fmt"
+	"path/filepath"
 	"sort"
 	"strings"
 	"sync"
@@ -212,6 +213,12 @@ func tbC05(c *Ctx, env *TBEnv, nprogs int) {
 			{{AfterMs: 150 + c.Rng.Intn(900), Sig: "TERM"}},
 			{{AfterMs: 150 + c.Rng.Intn(900), Sig: "KILL"}},
 			{{AfterMs: 150 + c.Rng.Intn(500), Sig: "KILL"}, {AfterMs: 150 + c.Rng.Intn(500), Sig: "INT"}},
+			// at the instant a job's completion has been recorded (its process may not have been reaped yet)
+			{{OnComplete: 1 + c.Rng.Intn(3), Sig: "KILL"}},
+			{{OnComplete: 1 + c.Rng.Intn(2), Sig: "TERM"}},
+			// mrp frozen while jobs complete, then killed
+			{{AfterMs: 100 + c.Rng.Intn(400), Sig: "STOPKILL"}},
+			{{AfterMs: 300 + c.Rng.Intn(900), Sig: "STOPKILL"}},
 		} {
 			s := base
 			s.Name = fmt.Sprintf("%s#%v", p.Name, sig)
@@ -248,12 +255,15 @@ func tbC05(c *Ctx, env *TBEnv, nprogs int) {
 						Input: input, Impl: inc.Output})
 				}
 			}
+			if res.Final != "complete" && strings.Contains(res.Incs[len(res.Incs)-1].Output, "is not a pipestance directory") {
+				// mrp was killed while it was still creating the pipestance directory (before _invocation existed)
+				r.violate(Violation{Kind: "property", Key: "C05:tierB-killed-during-pipestance-creation",
+					What:  "mrp was killed while creating the pipestance directory; the restarted mrp refuses the half-created directory ('is not a pipestance directory') and cannot create it anew either",
+					Input: input, Impl: res.Incs[len(res.Incs)-1].Output})
+				continue
+			}
 			if res.Final != "complete" {
 				class := res.Final
-				if last := res.Incs[len(res.Incs)-1].Output; strings.Contains(last, "is not a pipestance directory") {
-					// the first incarnation was killed before it had written _invocation
-					class += ":killed-during-creation"
-				}
 				r.violate(Violation{Kind: "property", Key: "C05:tierB-not-completed:" + class,
 					What:  "after interruption and restart the real mrp did not complete the pipestance",
 					Input: input, Impl: res.Incs[len(res.Incs)-1].Output + "\n--- unfinished job objects ---\n" + res.Stuck})
@@ -263,6 +273,34 @@ func tbC05(c *Ctx, env *TBEnv, nprogs int) {
 				r.violate(Violation{Kind: "property", Key: "C05:tierB-outputs-differ",
 					What: "final outputs after interruption differ from the uninterrupted run", Input: input,
 					Impl: string(res.TopOuts), Expect: string(ref.TopOuts)})
+			}
+			// a job whose completion was on disk when mrp was interrupted must not be executed again:
+			// its directory must still be the (only) attempt of that job in the final tree
+			for j, inc := range res.Incs {
+				for _, d := range inc.CompleteAtSignal {
+					r.hist("tierB_jobs_complete_at_signal")
+					if _, ok := res.Tree[filepath.Join(d, "_complete")]; !ok {
+						r.violate(Violation{Kind: "property", Key: "C05:tierB-completed-job-reset",
+							What:  fmt.Sprintf("job %s had recorded its completion when mrp incarnation %d was sent SIG%s, but its completion marker is gone after the restart (the job was reset)", d, j, inc.Signal),
+							Input: input})
+						continue
+					}
+					base := filepath.Base(d)
+					stem := base
+					if k := strings.Index(base, "-u"); k >= 0 {
+						stem = base[:k]
+					}
+					for p, te := range res.Tree {
+						if te.Kind == "dir" && filepath.Dir(p) == filepath.Dir(d) && p != d {
+							b := filepath.Base(p)
+							if b == stem || strings.HasPrefix(b, stem+"-u") {
+								r.violate(Violation{Kind: "property", Key: "C05:tierB-completed-job-rerun",
+									What:  fmt.Sprintf("job %s had recorded its completion when mrp incarnation %d was sent SIG%s, but the restarted mrp executed it again (%s)", d, j, inc.Signal, p),
+									Input: input})
+							}
+						}
+					}
+				}
 			}
 			// a job that ended ok well before an interruption must not run again
 			ivs := tbIntervals(res.Log)
